@@ -97,5 +97,50 @@ func extractConnUpdates(t *T) (string, error) {
 		})
 	}
 	def("mailbox_created_passes_three_sets", v, "applyMailboxCreated: tx.CreateMailbox(ctx, id, name, update.Mailbox.Flags, update.Mailbox.PermanentFlags, update.Mailbox.Attributes, uidValidity)")
+	// the LiteralSize of every message row a connector update inserts is the size returned by the function that builds the
+	// stored literal (rfc822.SetHeaderValueNoMemCopy), not the length of the update's raw literal
+	v = ""
+	for _, fn := range []string{"applyMessagesCreated", "applyMessageUpdated"} {
+		fd := FuncDecl(f, "user", fn)
+		if fd == nil {
+			v = ""
+			break
+		}
+		sizeVars := map[string]bool{}
+		ast.Inspect(fd.Body, func(n ast.Node) bool {
+			as, ok := n.(*ast.AssignStmt)
+			if !ok || len(as.Rhs) != 1 || len(as.Lhs) != 3 {
+				return true
+			}
+			if c, ok := as.Rhs[0].(*ast.CallExpr); ok {
+				if sel, ok := c.Fun.(*ast.SelectorExpr); ok && sel.Sel.Name == "SetHeaderValueNoMemCopy" {
+					if id, ok := as.Lhs[1].(*ast.Ident); ok && id.Name != "_" {
+						sizeVars[id.Name] = true
+					}
+				}
+			}
+			return true
+		})
+		found := false
+		ast.Inspect(fd.Body, func(n ast.Node) bool {
+			kv, ok := n.(*ast.KeyValueExpr)
+			if !ok || !isIdentNamed(kv.Key, "LiteralSize") {
+				return true
+			}
+			found = true
+			if v == "" {
+				v = "true"
+			}
+			if id, ok := kv.Value.(*ast.Ident); !ok || !sizeVars[id.Name] {
+				v = "false"
+			}
+			return true
+		})
+		if !found {
+			v = ""
+			break
+		}
+	}
+	def("created_size_is_stored_size", v, "applyMessagesCreated / applyMessageUpdated: `LiteralSize: literalSize` with `_, literalSize, _ := rfc822.SetHeaderValueNoMemCopy(...)`")
 	return sb.String(), nil
 }
